@@ -268,10 +268,10 @@ def cfg_value(v):
     return '"%s"' % v
 
 
-def tlc_eval(d, module, constants, timeout=1800, heap="3g", background=False):
+def tlc_eval(d, module, constants, timeout=1800, heap="3g", background=False, extra=()):
     """Evaluate a module whose work is done in ASSUMEs (GEN / JUDGE modules)."""
     write_cfg(os.path.join(d, module + ".cfg"),
-              ["CONSTANTS"] + ["  %s = %s" % (k, cfg_value(v)) for k, v in constants.items()])
+              list(extra) + ["CONSTANTS"] + ["  %s = %s" % (k, cfg_value(v)) for k, v in constants.items()])
     if background:
         return start_tlc(d, module, module + ".cfg", workers=1, heap=heap)
     return run_tlc(d, module, module + ".cfg", workers=1, timeout=timeout, heap=heap)
